@@ -2,11 +2,19 @@
 TRUSTED = ("Trusted base: the instrumenter's rewrite preserves behaviour (the instrumented copy passes go-cty's own suite under ascending, descending and rotated map order); "
            "the checker's model/oracle code; the Go toolchain. Sampling, not proof: a clean batch is evidence only.")
 
+for p in ["C03","C06","C10","C17","C19"]:
+    PENDING[p] = "check under construction in this round (will be claimed; see DESIGN.md §5)"
+
 claim("C05",
   "deterministic simulation: seeded refinement-builder call histories with snapshot/reuse faults against an interval model; exhaustive cut points per generated string",
   "Seeded search over histories of refinement-builder calls (1..12 calls, NewValue snapshots interleaved, builder reused after a snapshot or refining restarted from it, contradictions injected on purpose) under every map-order policy, each call judged accept/reject and each snapshot's Range()/Includes/Equals judged against an independent interval / nullness / prefix / length model; plus every rune-boundary cut of generated strings over the alphabet the property names, with 5 continuations per cut, checked directly against the statement (byte prefix of the normalized extension). Exploration is the right level: the space of histories and continuations is unbounded, and the failures live in tie cases (inclusive vs exclusive, equal bounds, mixed precisions) that seeded generation hits within seconds.",
   TRUSTED + " Numbers are compared by shortest decimal rendering as go-cty documents; infinite candidates are outside the oracle.",
   "DESIGN.md §5 C05")
 
-for p in ["C03","C06","C10","C17","C19","C20"]:
-    PENDING[p] = "check under construction in this round (will be claimed; see DESIGN.md §5)"
+
+claim("C20",
+  "deterministic simulation: seeded multi-task operation histories over a shared pool under a seeded baton scheduler invisible to the race detector, with aliasing faults and controlled map order",
+  "Seeded search over worlds of 2..16 caller tasks running generated operation histories (~75 operations over the whole public surface, including accessor-then-mutate and constructor-then-mutate aliasing faults and ValueSet/PathSet/builder copy-and-diverge life cycles) over a shared pool. Each world is executed sequentially with the internal fingerprint of every pre-existing object re-checked after every operation, repeated for purity, repeated under another map-iteration order, and run twice concurrently under a seeded scheduler whose baton hand-offs use raw pipe syscalls in norace code, so that serialized tasks still look unsynchronized to the Go race detector: one seed is one exactly repeatable interleaving and conflicting accesses are reportable. Exploration is the right level: the quantifier is histories x schedules, which no table test reaches, and the violations found here (set.Copy sharing bucket arrays, NewValue aliasing the builder, Equals depending on map order) all needed either a multi-step history or a second task.",
+  TRUSTED + " Races are found by the Go race detector (history_size=7, sync.Pool and math/big divisor-table lock neutralised in the simulation build only); interleavings are sampled (random, PCT, round-robin, call-granular), not enumerated.",
+  "DESIGN.md §5 C20")
+PENDING.pop("C20", None)
